@@ -227,7 +227,13 @@ impl<const N: usize> AEADCipherCodec<N> {
             self.decoder = Some(decoder);
             if matches!(session.mode, Mode::Server) && session.address.is_none() {
                 session.address = Some(address::decode(&mut via)?);
+                if via.remaining() < 2 {
+                    bail!("invalid request header, padding length is missing");
+                }
                 let padding_len = via.get_u16();
+                if via.remaining() < padding_len as usize {
+                    bail!("invalid request header, padding length {} exceeds the remaining {} bytes", padding_len, via.remaining());
+                }
                 via.advance(padding_len as usize);
             }
             return Ok(Some(via));
